@@ -352,3 +352,36 @@ Definition cum_case_run (g : mol) (mapping : list (Z * Z)) (to_del : list Z) (tp
   | Ok (new, _) => cum_case_eqb g new t1 i1 i2 t2 s obs_env real
   | Err _ => false
   end.
+
+(* ---------- cumulenes one of whose terminal atoms may be named by the replacement ----------
+   MoleculeContainer.cumulenes starts every chain at the terminal that comes first in the atoms dict, so the registry key
+   (first, last) and the entry (neighbour of first, neighbour of last, ...) of the PRODUCT can be those of the input read from
+   the other end (patched atoms come first in the product).  _patcher compares the terminal pairs as sets and calls
+   new._translate_cis_trans_sign( *n12, *env[:2], old) / new._translate_allene_sign(n, *env[:2], old) with env of the input. *)
+Definition before (l : list Z) (a b : Z) : bool :=
+  match index_of l a, index_of l b with Some i, Some j => i <=? j | Some _, None => true | _, _ => false end.
+Definition cum_env_oriented (isH : Z -> bool) (g : mol) (t1 i1 t2 i2 : Z) : option (Z * Z * option Z * option Z) :=
+  if before (ids g) t1 t2 then cum_env isH g t1 i1 t2 i2 else cum_env isH g t2 i2 t1 i1.
+Definition patched_cum_label_oriented (isH isH' : Z -> bool) (g new : mol) (t1 i1 t2 i2 : Z) (s : bool) : pyres (option bool) :=
+  match cum_env_oriented isH' new t1 i1 t2 i2, cum_env_oriented isH g t1 i1 t2 i2 with
+  | Some e', Some (n0, n1, o2, o3) =>
+      if same_keys_z (env_atoms e') (env_atoms (n0, n1, o2, o3))
+      then match Stereo.translate_env isH' e' n0 n1 s with Ok r => Ok (Some r) | Err e => Err e end
+      else Ok None
+  | _, _ => Ok None
+  end.
+(* runner: labels of the product are read BEFORE fix_stereo (from the frame of the real call): compared exactly *)
+Definition cum_case_exact (g : mol) (mapping : list (Z * Z)) (to_del : list Z) (tpl : template) (t1 i1 i2 t2 : Z) (s : bool)
+  (obs_env : option (Z * Z * option Z * option Z)) (real : option bool) : bool :=
+  match patcher_with get_deleted g mapping to_del tpl with
+  | Ok (new, _) =>
+      env_eqb (cum_env_oriented (is_H_atom g) g t1 i1 t2 i2) obs_env &&
+      match patched_cum_label_oriented (is_H_atom g) (is_H_atom new) g new t1 i1 t2 i2 s with
+      | Ok model => option_eqb Bool.eqb model real
+      | Err _ => false
+      end
+  | Err _ => false
+  end.
+Definition stereo_case_exact (sth hs : list Z) (g : mol) (obs : list (Z * list Z * option bool)) : bool :=
+  forallb (fun o => list_eqb Z.eqb (th_env (fun x => zmem x hs) g (fst (fst o))) (snd (fst o)) &&
+                    option_eqb Bool.eqb (untouched_label sth g (fst (fst o))) (snd o)) obs.
